@@ -95,6 +95,18 @@ fn gen_rules(r: &mut Rng) -> Vec<String> {
             _ => gen::rule(r, false),
         });
     }
+    // on a shared pattern: two rules of ONE category (candidates for fusion: same mask, same bucket)
+    // under two different tags, next to an untagged blocking rule on the same pattern
+    if let Some(p) = &shared {
+        if r.chance(1, 2) {
+            let (t1, t2) = (r.pick(RULE_TAGS), r.pick(RULE_TAGS));
+            let mk = |t: &str, k: usize| match k { 0 => format!("@@{}$tag={}", p, t), 1 => format!("{}$important,tag={}", p, t), 2 => format!("{}$tag={}", p, t), _ => format!("{}$csp=img-src *,tag={}", p, t) };
+            let k = r.below(4);
+            v.push(mk(t1, k));
+            v.push(mk(t2, k));
+            if r.chance(2, 3) { v.push(p.clone()); }
+        }
+    }
     // a rule of the list again with nothing changed but its tag
     if r.chance(1, 3) {
         let base = v[r.below(v.len())].clone();
